@@ -1,6 +1,17 @@
 """C01 — lossless write/read round trip of point records.
 Model: file_of / read_file of Model/Las.v. Correspondence: bytes written by LasData.write vs file_of; laspy.read of them vs read_file.
-Search: round trip, idempotent rewrite and non-mutation directly on the implementation, over destination kinds."""
+Search: round trip, idempotent rewrite and non-mutation directly on the implementation, over destination kinds.
+Round 4: histories over LasData objects derived from one another (Model/DataAlias.v), files streamed through a writer kept open while the
+caller edits its header (Model/WriterAlias.v). Round 5: pairings of every way of building a header with every relation of the record's format
+to it (Model/Pairing.v), large records.
+Round 6: (a) "not modified" means contents AND identity: every snapshot taken around a write also holds which record object / array object /
+memory address / strides / header / format / VLR objects the LasData refers to (_snap, _ident); (b) VIEW sessions (view_session;
+Model/RecView.v, `vsess` of bin/lasmodel_c04): selections that are numpy views (slices of any step and sign, of LasData, ScaleAware and bare
+PackedPointRecord clouds, views of views) and copies (masks, index lists), written through every entry point and edited through any of
+them, judged after every step against the harness's own buffers-and-index-maps picture; (c) READING sessions (reading_session;
+Model/ReadBack.v on the cursor of Model/Cursor.v, `crun` of the main driver): chunk iterators created at any time, several at once, stepped,
+drained and drained again around seeks and read_points on one open reader; (d) header scalings edited by every order of magnitude after
+the records were made (near_rescale_cases); more than 64 MiB in one call (thorough tier)."""
 import io
 import os
 import shutil
@@ -141,7 +152,7 @@ def cases(ctx):
         try:
             for _ in range(ctx.n(300, 4000)):
                 las, dest = make_case(ctx.rng)
-                snap0 = sessions.snapshot(las)
+                snap0 = _snap(las)
                 rec = {"las": las, "dest": dest, "desc": {"version": str(las.header.version), "format": las.header.point_format.id,
                                                            "extra": [(d.name, str(d.dtype), d.scales is not None) for d in las.point_format.extra_dimensions],
                                                            "points": len(las.points), "vlrs": len(las.vlrs), "evlrs": len(las.evlrs or []), "dest": dest}}
@@ -150,7 +161,7 @@ def cases(ctx):
                     rec.update(raw=raw, closed=closed, write_error=None)
                 except Exception as ex:
                     rec.update(raw=None, write_error=f"{type(ex).__name__}: {ex}")
-                rec["unchanged"] = sessions.snapshot(las) == snap0
+                rec["unchanged"] = _snap(las) == snap0
                 rec["snap"] = snap0
                 if rec["raw"] is not None:
                     try:
@@ -160,6 +171,12 @@ def cases(ctx):
                         back.write(b2)
                         rec["raw2"] = b2.getvalue()
                         rec["routes"] = read_routes(ctx.rng, rec["raw"])
+                        if not getattr(las, "_verif_rescale", False):
+                            import random as _random
+                            import zlib as _zlib
+                            rr = _random.Random(_zlib.crc32(rec["raw"]))       # own stream: the older generators keep theirs
+                            rec["reading"] = [reading_session(rr, rec["raw"], lasio.rec_bytes(las.points), int(las.points.array.dtype.itemsize), ctx.thorough())
+                                              for _ in range(2)]
                     except Exception as ex:
                         rec["read_error"] = f"{type(ex).__name__}: {ex}"
                 _CASES.append(rec)
@@ -294,6 +311,27 @@ def correspond(ctx):
                 if have != common.unhex(vals):
                     dis.append({"kind": "pairing: values read back under a dimension name", "input": dict(r["desc"], dimension=name), "model": vals[:80], "impl": "missing" if have is None else common.hexb(have)[:80]})
                     break
+    # ---- round 6: view sessions vs Model/RecView.v; reading sessions vs the cursor of Model/Cursor.v (on which Model/ReadBack.v is stated)
+    ctx.extra["rule"] += (" || VIEW sessions (3..13 steps): a cloud of 2..30 records, selections of any live object as LasData or bare record - slices "
+                          "[::2] [1::2] [::3] [::-1] [::-2] [:n/2] [1:] [:] (views, also of views) and masks / index lists incl. repeated indices (copies) -, writes of any "
+                          "object through LasData.write / LasWriter.write_points / laspy.open(mode='w'), edits of intensity / X / Z / point_source_id through any "
+                          "object by obj.f[:] = v, obj.array[f][...] = v, obj.f = v; after every step every object is compared with the harness's picture, "
+                          "after every write the identity (array object, memory address, strides) of the written record; the cloud is written at the end. "
+                          "|| READING sessions (two per written file, 3..13 steps): chunk iterators of sizes 1, 2, 3, n/2, n-1, n, n+5 created at any time and "
+                          "several at once, next(it), list(it), seek(0 / n-1 / random), read_points(0 / 1 / 2 / -1 / n/2 / n+3) on one open reader")
+    vs = [v for v in view_sessions(ctx) if v.get("cmd") and not v["failures"]]
+    for v, line in zip(vs, common.run_model([v["cmd"] for v in vs], name="c04")):
+        ctx.traces += 1
+        m = line.split(" ")
+        want = ",".join(common.hexb(b) for b in v["final"])
+        if len(m) < 2 or m[1] != want:
+            dis.append({"kind": "view session: records presented by the objects at the end", "input": v["desc"], "model": (m[1] if len(m) > 1 else line)[:120], "impl": want[:120]})
+    rs = [(c, r) for c in cases(ctx) for r in c.get("reading", []) if r.get("cmd")]
+    for (c, r), line in zip(rs, common.run_model([r["cmd"] for _, r in rs])):
+        ctx.traces += 1
+        got = ["s=" if (t.startswith("s") and t[1:].split(":")[0] == t[1:].split(":")[-1]) else t for t in line.split(" ")] if line else []
+        if got[:len(r["obs"])] != r["obs"]:
+            dis.append({"kind": "reading session: outcomes", "input": dict(c["desc"], ops=r["ops"]), "model": " ".join(got)[:160], "impl": " ".join(r["obs"])[:160]})
     return dis
 
 
@@ -350,6 +388,19 @@ def search(ctx, seeds):
                     add("reading route raises", c["desc"], got)
                 elif got != want:
                     add("records differ through " + route.split("(")[0].split(" ")[0], dict(c["desc"], route=route), f"{len(got)} bytes read through {route}, {len(want)} written; contents differ")
+    for c in cases(ctx):
+        for rs in c.get("reading", []):
+            ctx.count("reading-session:ops", len(rs["ops"]))
+            for kind, why, at in rs["failures"][:1]:
+                add(kind, dict(c["desc"], ops=["r = laspy.open(<the written file>)"] + rs["ops"][:at]), why)
+    for vs in view_sessions(ctx):
+        ctx.case(repr(vs["desc"]), nontrivial=vs["views"] > 0 and vs["writes"] > 0 and vs["edits"] > 0)
+        ctx.count("view-session:selections:view", vs["views"])
+        ctx.count("view-session:selections:copy", vs["copies"])
+        ctx.count("view-session:writes", vs["writes"])
+        ctx.count("view-session:edits", vs["edits"])
+        for kind, why, at in vs["failures"][:1]:
+            add(kind, dict(vs["desc"], ops=vs["desc"]["ops"][:at]), why)
     for raw, recs, d in foreign_cases(ctx):
         ctx.case(("foreign", raw), nontrivial=d["points"] > 0)
         ctx.count("foreign-partial-extra-bytes-vlr")
@@ -417,6 +468,11 @@ def search(ctx, seeds):
         ctx.count("pairing:" + d["record_format"] + "->" + str(r.get("outcome", "not run")).split(":")[0])
         for kind, why in r["problems"][:2]:
             add("paired: " + kind, d, why)
+    for d, probs in near_rescale_cases(ctx):
+        ctx.case(repr(d), nontrivial=True)
+        ctx.count("near-rescale:" + d["header_scaling_edited_to"]["how"])
+        for kind, why in probs[:2]:
+            add(kind if kind.startswith("write ") or kind.startswith("a refused") else "header scaling edited: " + kind, d, why)
     for d, probs in big_round_trips(ctx):
         ctx.case(repr(d), nontrivial=True)
         ctx.count("size:round-trip:" + ("2^20+k" if d["points"] > (1 << 20) else "multiple-of-65536"))
@@ -430,6 +486,12 @@ def search(ctx, seeds):
                                                                      "fails_after_bytes": budget, "file_size": size},
                 "the destination raised OSError during the write; the scale-aware record (rescaled in place for the write) was not restored")
     return failing[:12]
+
+
+def _snap(las):
+    """contents (sessions.snapshot) AND identity of what a write must leave alone: the record object, its array object, the memory the
+    array lives in, its strides, the header / format / VLR-list objects"""
+    return (sessions.snapshot(las), _ident(las.points), id(las.header), id(las.header.point_format), id(las.header.vlrs), [id(v) for v in las.header.vlrs])
 
 
 def laspy_read(raw):
@@ -447,7 +509,7 @@ class FailingStream(io.BytesIO):
         self.failed = 0
 
     def write(self, b):
-        if self.tell() + len(b) > self.budget and not (self.once and self.failed):
+        if self.tell() + memoryview(b).nbytes > self.budget and not (self.once and self.failed):
             self.failed += 1
             raise OSError("no space left on device (harness)")
         return super().write(b)
@@ -474,7 +536,7 @@ def failing_write_cases(ctx):
         size = len(full.getvalue())
         off = int.from_bytes(full.getvalue()[96:100], "little")
         budget = rng.choice([off, off + 1, max(off, size - 1), rng.randrange(off, size)])
-        snap = sessions.snapshot(las)
+        snap = _snap(las)
         try:
             las.write(FailingStream(budget))
             raised = False
@@ -482,7 +544,7 @@ def failing_write_cases(ctx):
             raised = True
         except Exception as ex:
             raised = True
-        out.append((las, budget, size, raised, sessions.snapshot(las) == snap))
+        out.append((las, budget, size, raised, _snap(las) == snap))
     return out
 
 
@@ -512,17 +574,17 @@ def _judge(las, exp, final):
     for k in ("format", "header_format", "scales", "offsets", "version", "count", "record_size", "recs"):
         if now[k] != exp[k]:
             out.append((k, f"in memory: {k} is {str(now[k])[:80]}, the operations on this object left it at {str(exp[k])[:80]}"))
-    snap = sessions.snapshot(las)
+    snap = _snap(las)
     b = io.BytesIO()
     try:
         las.write(b)
     except Exception as ex:
         if exp.get("pending") and isinstance(ex, OverflowError) and not out:
             # the header's scaling was edited on purpose and the stored coordinates do not fit it: a clean refusal (C11), nothing written back
-            return [] if sessions.snapshot(las) == snap else [("a refused write modified the caller's object", f"{type(ex).__name__}: {ex}")]
+            return [] if _snap(las) == snap else [("a refused write modified the caller's object", f"{type(ex).__name__}: {ex}")]
         return [("write failed", f"{type(ex).__name__}: {ex}")] + [("changed by an operation on another object: " + k, w) for k, w in out]
-    if sessions.snapshot(las) != snap:
-        out.insert(0, ("write modified the caller's object", "snapshot of records / header / VLRs differs after LasData.write"))
+    if _snap(las) != snap:
+        out.insert(0, ("write modified the caller's object", "snapshot of records / header / VLRs (contents, and which objects / which memory they are) differs after LasData.write"))
     raw = b.getvalue()
     try:
         back = laspy_read(raw)
@@ -827,6 +889,7 @@ def replay(ctx, data):
 # Model: Model/Pairing.v (`pair` of bin/lasmodel_c04).
 # =====================================================================================================================
 import copy as _copy
+import copy
 
 HEADER_ROUTES = [
     "LasHeader(version=v, point_format=fmt)", "LasHeader(point_format=fmt)", "LasHeader(version=v, point_format=copy.deepcopy(fmt))",
@@ -1067,7 +1130,7 @@ def _hsnap(h):
 
 
 def _rsnap(rec):
-    return (lasio.rec_bytes(rec), full_key(rec.point_format), str(rec.array.dtype), tuple(map(float, getattr(rec, "scales", []))), tuple(map(float, getattr(rec, "offsets", []))))
+    return (_ident(rec), lasio.rec_bytes(rec), full_key(rec.point_format), str(rec.array.dtype), tuple(map(float, getattr(rec, "scales", []))), tuple(map(float, getattr(rec, "offsets", []))))
 
 
 def pairing_case(rng, route, rel, entry, tmpdir=None):
@@ -1191,7 +1254,7 @@ def pairing_case(rng, route, rel, entry, tmpdir=None):
         res["problems"].append((what, f"read back {a[0][1]}, the header that was written had {b[0][1]}"))
     if len(back.points) != n or back.header.point_count != n:
         res["problems"].append(("point count differs after round trip", f"header {back.header.point_count}, records {len(back.points)}, written {n}"))
-    if lasio.rec_bytes(back.points) != rs0[0]:
+    if lasio.rec_bytes(back.points) != rs0[1]:
         res["problems"].append(("records differ after round trip", f"{len(back.points)} records of {back.points.array.dtype.itemsize} bytes read, {n} of {rec.array.dtype.itemsize} written; bytes differ"))
     bnames = back.points.array.dtype.names or ()
     for nm in layout:
@@ -1245,7 +1308,8 @@ def big_round_trips(ctx):
     if rng.random() < 0.5:
         plan.append((rng.choice([1 << 20, (1 << 20) - 1, (1 << 20) + 65536]), rng.choice(lasio.VERSIONS), 0, 1))
     if ctx.thorough():
-        plan += [((1 << 21) + 3, "1.4", 6, 1), (16 * 65536, "1.3", 1, 3), ((1 << 20) + 65536, "1.1", 1, 1)]
+        plan += [((1 << 21) + 3, "1.4", 6, 1), (16 * 65536, "1.3", 1, 3), ((1 << 20) + 65536, "1.1", 1, 1),
+                 ((64 << 20) // 20 + rng.choice([1, 7, 4096]), "1.2", 0, 1)]          # round 6: more than 64 MiB of records in one call
     for n, v, f, stride in plan:
         h = lasio.rand_header(rng, version=v, fmt=f, nvlrs=0)
         seed = rng.randrange(2 ** 32)
@@ -1277,5 +1341,370 @@ def big_round_trips(ctx):
                 probs.append(("written file cannot be read", f"{type(ex).__name__}: {ex}"))
         except Exception as ex:
             probs.append(("write failed: " + type(ex).__name__, f"{type(ex).__name__}: {ex}"))
+        out.append((d, probs))
+    return out
+
+
+# =====================================================================================================================
+# round 6: (a) SELECTIONS THAT ARE VIEWS. las.points[a:b:k] / las[a:b:k] (any step, either sign, slices of slices) are numpy views of
+# the cloud they were selected from; masks and index lists are copies. Writing any of them - LasData.write, LasWriter.write_points,
+# laspy.open(mode='w') - must leave the object it was given as it is: the same array object over the same memory with the same strides,
+# so that an edit made through the selection after the write still reaches the cloud (and the file the cloud is written to afterwards).
+# The harness keeps its own picture (buffers + index maps, plain Python) of what every object must hold; Model/RecView.v is the same
+# picture in Coq (`vsess` of bin/lasmodel_c04).
+# (b) READING SESSIONS: every interleaving of chunk iterators (created early, late, several at once, drained twice), read_points,
+# seek and read on one open reader gives back the records the cursor stands on - whatever was read or sought before the iterator was
+# created or between two of its steps (the iterator has no state of its own).
+# =====================================================================================================================
+_VIEW_FIELDS = ["intensity", "X", "point_source_id", "Z"]
+
+
+def _ident(rec):
+    a = rec.array
+    return (id(rec), id(a), a.__array_interface__["data"][0], a.strides, a.shape, bool(a.flags.writeable), id(rec.point_format))
+
+
+def view_session(rng, thorough=False):
+    """one parent cloud, a tree of selections (views and copies; LasData or bare records), writes of any of them through every entry
+    point, edits through any of them; returns dict(desc, failures, cmd)"""
+    import laspy
+    h = lasio.rand_header(rng, nvlrs=rng.choice([0, 1]))
+    if rng.random() < 0.3:
+        lasio.add_extra_dims(rng, h)
+    n0 = rng.choice([2, 3, 5, 8, 13, 30])
+    bare_root = rng.random() < 0.3          # the cloud is a bare PackedPointRecord (the base class), not the ScaleAwarePointRecord of a LasData
+    if bare_root:
+        las0 = lasio.rand_points(rng, h, n0)
+        root_rec = las0
+    else:
+        las0 = laspy.LasData(header=h, points=lasio.rand_points(rng, h, n0))
+        root_rec = las0.points
+    size = int(h.point_format.size)
+    dt = root_rec.array.dtype
+    desc = {"version": str(h.version), "format": h.point_format.id, "points": n0, "record_size": size,
+            "ops": [("las0 = PackedPointRecord of %d records" if bare_root else "las0 = LasData(header, points=<%d records>)") % n0]}
+    log = desc["ops"]
+    buffers = {0: [bytearray(lasio.rec_bytes(root_rec)[i * size:(i + 1) * size]) for i in range(n0)]}
+    objs = [{"name": "las0", "obj": las0, "buf": 0, "idx": list(range(n0)), "las": not bare_root}]
+    res = {"desc": desc, "failures": [], "writes": 0, "edits": 0, "views": 0, "copies": 0}
+    toks = [str(size), common.hexb(lasio.rec_bytes(root_rec))]
+    wrote = [False]
+
+    def rec_of(o):
+        return o["obj"].points if o["las"] else o["obj"]
+
+    def want(o):
+        return b"".join(bytes(buffers[o["buf"]][p]) for p in o["idx"])
+
+    def check(where):
+        for o in objs:
+            got = lasio.rec_bytes(rec_of(o))
+            if got != want(o):
+                w = want(o)
+                bad = next((i for i in range(len(o["idx"])) if got[i * size:(i + 1) * size] != w[i * size:(i + 1) * size]), None)
+                kind = ("view: after a write, an edit through a selection does not reach every object over the same records" if wrote[0] and res["edits"]
+                        else "view: records of an object differ from what was done to the records it selects")
+                res["failures"].append((kind, f"{o['name']} after {where}: record {bad} of {len(o['idx'])} differs from the harness's picture "
+                                              f"(numpy semantics: slices are views, masks / index lists are copies)", len(log)))
+                return False
+        return True
+
+    nsteps = rng.randrange(3, 9 if not thorough else 14)
+    for step in range(nsteps):
+        r = rng.random()
+        o = rng.choice(objs)
+        n = len(o["idx"])
+        if r < 0.35 and len(objs) < 6:
+            cands = [slice(None, None, 2), slice(1, None, 2), slice(None, None, 3), slice(None, None, -1), slice(None, None, -2), slice(0, max(1, n // 2)), slice(1, None), slice(None)]
+            view = rng.random() < 0.7
+            if view or n == 0:
+                ix = rng.choice(cands)
+                sel = list(range(n))[ix]
+                shown = f"{ix.start if ix.start is not None else ''}:{ix.stop if ix.stop is not None else ''}" + (f":{ix.step}" if ix.step is not None else "")
+                newbuf, newidx = o["buf"], [o["idx"][k] for k in sel]
+                toks.append(f"V{objs.index(o)}:" + (",".join(map(str, sel)) or "-"))
+                res["views"] += 1
+            else:
+                sel = sorted(rng.sample(range(n), rng.randrange(1, n + 1))) if rng.random() < 0.5 else [rng.randrange(n) for _ in range(rng.randrange(1, n + 2))]
+                if rng.random() < 0.5:
+                    m = np.zeros(n, dtype=bool); m[sorted(set(sel))] = True
+                    ix, sel, shown = m, sorted(set(sel)), "<mask selecting %s>" % sorted(set(sel))
+                else:
+                    ix, shown = list(sel), repr(list(sel))
+                newbuf = max(buffers) + 1
+                buffers[newbuf] = [bytearray(buffers[o["buf"]][o["idx"][k]]) for k in sel]
+                newidx = list(range(len(sel)))
+                toks.append(f"K{objs.index(o)}:" + (",".join(map(str, sel)) or "-"))
+                res["copies"] += 1
+            name = f"s{len(objs)}"
+            as_las = o["las"] and rng.random() < 0.5
+            try:
+                new = o["obj"][ix] if as_las else rec_of(o)[ix]
+            except Exception as ex:
+                log.append(f"# {o['name']}[{shown}] raised {type(ex).__name__}: {ex}")
+                toks.pop()
+                continue
+            log.append(f"{name} = {o['name']}{'' if as_las or not o['las'] else '.points'}[{shown}]" + ("   # a view" if newbuf == o["buf"] else "   # a copy"))
+            objs.append({"name": name, "obj": new, "buf": newbuf, "idx": newidx, "las": as_las})
+        elif r < 0.65:
+            rec = rec_of(o)
+            before = _ident(rec)
+            dest = io.BytesIO()
+            route = rng.choice(["write", "LasWriter", "open"]) if o["las"] else rng.choice(["LasWriter", "open"])
+            hh = o["obj"].header if o["las"] else copy.deepcopy(h)
+            try:
+                if route == "write":
+                    o["obj"].write(dest)
+                    lab = f"{o['name']}.write(<bytesio>)"
+                elif route == "LasWriter":
+                    with laspy.LasWriter(dest, hh, closefd=False) as w:
+                        w.write_points(rec)
+                    lab = f"with laspy.LasWriter(<bytesio>, header, closefd=False) as w: w.write_points({o['name']}{'.points' if o['las'] else ''})"
+                else:
+                    with laspy.open(dest, mode="w", header=hh, closefd=False) as w:
+                        w.write_points(rec)
+                    lab = f"with laspy.open(<bytesio>, mode='w', header=header, closefd=False) as w: w.write_points({o['name']}{'.points' if o['las'] else ''})"
+            except Exception as ex:
+                res["failures"].append(("view: write failed", f"{o['name']} through {route}: {type(ex).__name__}: {ex}", len(log)))
+                break
+            log.append(lab)
+            toks.append(f"W{objs.index(o)}")
+            res["writes"] += 1
+            wrote[0] = True
+            raw = dest.getvalue()
+            off = int.from_bytes(raw[96:100], "little")
+            if raw[off:off + len(o["idx"]) * size] != want(o):
+                res["failures"].append(("view: records differ after round trip", f"the file written from {o['name']} does not hold the records {o['name']} selects", len(log)))
+                break
+            rec2 = rec_of(o)
+            if _ident(rec2) != before:
+                b, a = before, _ident(rec2)
+                what = [nm for nm, x, y in zip(("record object", "array object", "memory address", "strides", "shape", "writeable flag", "point format object"), b, a) if x != y]
+                res["failures"].append(("write modified the caller's object: the record's array was re-bound / re-laid out", f"{o['name']} after {lab}: changed: {what}; strides {b[3]} -> {a[3]}", len(log)))
+                break
+        else:
+            if n == 0:
+                continue
+            f = rng.choice([x for x in _VIEW_FIELDS if x in dt.names])
+            fdt, foff = dt.fields[f][0], dt.fields[f][1]
+            style = rng.choice(["attr[:]", "array", "setattr"])
+            vals = [rng.randrange(0, 60000) for _ in range(n)] if rng.random() < 0.5 else [rng.randrange(0, 60000)] * n
+            arr = np.array(vals, dtype=fdt)
+            try:
+                if style == "attr[:]":
+                    getattr(o["obj"], f)[:] = arr
+                    lab = f"{o['name']}.{f}[:] = {vals[:4]}{'...' if n > 4 else ''}"
+                elif style == "array":
+                    rec_of(o).array[f][...] = arr
+                    lab = f"{o['name']}{'.points' if o['las'] else ''}.array[{f!r}][...] = {vals[:4]}{'...' if n > 4 else ''}"
+                else:
+                    setattr(o["obj"], f, arr)
+                    lab = f"{o['name']}.{f} = np.array({vals[:4]}{'...' if n > 4 else ''})"
+            except Exception as ex:
+                log.append(f"# editing {f} through {o['name']} ({style}) raised {type(ex).__name__}: {str(ex)[:60]}")
+                continue
+            log.append(lab)
+            res["edits"] += 1
+            for k, pos in enumerate(o["idx"]):
+                buffers[o["buf"]][pos][foff:foff + fdt.itemsize] = arr[k:k + 1].tobytes()
+            toks.append(f"E{objs.index(o)}:{foff}:" + common.hexb(arr.tobytes()) + f":{fdt.itemsize}")
+        if not check(log[-1]):
+            break
+    if not res["failures"]:
+        # the cloud, written at the end, holds every edit made through its views
+        dest = io.BytesIO()
+        try:
+            if bare_root:
+                with laspy.LasWriter(dest, copy.deepcopy(h), closefd=False) as w:
+                    w.write_points(las0)
+            else:
+                las0.write(dest)
+            raw = dest.getvalue()
+            off = int.from_bytes(raw[96:100], "little")
+            log.append("with laspy.LasWriter(<bytesio>, header, closefd=False) as w: w.write_points(las0)" if bare_root else "las0.write(<bytesio>)")
+            toks.append("W0")
+            if raw[off:off + n0 * size] != want(objs[0]):
+                res["failures"].append(("view: the file of the cloud does not hold the edits made through its selections", "las0.write at the end of the session", len(log)))
+        except Exception as ex:
+            res["failures"].append(("view: write failed", f"las0: {type(ex).__name__}: {ex}", len(log)))
+    res["final"] = [lasio.rec_bytes(rec_of(o)) for o in objs]
+    res["cmd"] = "vsess " + " ".join(toks)
+    return res
+
+
+_VIEWS = None
+
+
+def view_sessions(ctx):
+    global _VIEWS
+    if _VIEWS is None:
+        pairings(ctx)
+        _VIEWS = [view_session(ctx.rng, ctx.thorough()) for _ in range(ctx.n(250, 3000))]
+    return _VIEWS
+
+
+def reading_session(rng, raw, recs, size, thorough=False):
+    """one open reader over the file `raw` (holding the records `recs`), a random interleaving of: it_k = r.chunk_iterator(c), next(it_k),
+    draining it_k, r.read_points(m), r.seek(p); the harness keeps the cursor; returns dict(desc ops, failures, cmd)"""
+    import laspy
+    n = len(recs) // size
+    log, fails, toks, obs = [], [], [], []
+    pos = 0
+    its = []
+    nsteps = rng.randrange(3, 9 if not thorough else 14)
+
+    def expect(m):
+        k = (n - pos) if m < 0 else min(m, n - pos)
+        return max(k, 0)
+
+    def take(got, k, what):
+        nonlocal pos
+        w = recs[pos * size:(pos + k) * size]
+        g = lasio.rec_bytes(got) if got is not None else b""
+        if g != w:
+            fails.append(("reading session: records differ", f"{what}: the cursor stands on record {pos} of {n}; expected records {pos}..{pos + k}, got {len(g) // size} records"
+                                                            f"{' (others)' if len(g) == len(w) else ''}", len(log)))
+            return False
+        obs.append(f"s{pos}:{pos + k}" if k else "s=")
+        pos += k
+        return True
+    with laspy.open(io.BytesIO(raw)) as r:
+        for step in range(nsteps):
+            x = rng.random()
+            if x < 0.2 or (not its and x < 0.5):
+                c = rng.choice([1, 2, 3, max(1, n // 2), max(1, n), n + 5, max(1, n - 1)])
+                its.append((r.chunk_iterator(c), c))
+                log.append(f"it{len(its) - 1} = r.chunk_iterator({c})")
+                continue
+            if x < 0.45 and its:
+                j = rng.randrange(len(its))
+                it, c = its[j]
+                k = expect(c)
+                log.append(f"next(it{j})")
+                toks.append(f"N{c}")
+                try:
+                    got = next(it)
+                    if k == 0:
+                        fails.append(("reading session: iterator does not stop at the end of the points", f"next(it{j}) returned {len(got)} records with the cursor on {pos} of {n}", len(log)))
+                        break
+                    if not take(got, k, f"next(it{j}) (chunks of {c})"):
+                        break
+                except StopIteration:
+                    obs.append("eEStop")
+                    if k != 0:
+                        fails.append(("reading session: iterator stops although records are left",
+                                      f"next(it{j}) (chunks of {c}) raised StopIteration with the cursor on record {pos} of {n}", len(log)))
+                        break
+            elif x < 0.65 and its:
+                j = rng.randrange(len(its))
+                it, c = its[j]
+                log.append(f"pieces = list(it{j})")
+                pieces = list(it)
+                toks.extend([f"N{c}"] * (len(pieces) + 1))
+                cur = pos
+                for pc in pieces:
+                    obs.append(f"s{cur}:{cur + len(pc)}")
+                    cur += len(pc)
+                obs.append("eEStop")
+                k = n - pos
+                got = b"".join(lasio.rec_bytes(p) for p in pieces)
+                if got != recs[pos * size:]:
+                    fails.append(("reading session: draining an iterator does not give the records that are left",
+                                  f"list(it{j}) (chunks of {c}) with the cursor on record {pos} of {n}: {len(got) // size} records in {len(pieces)} pieces, {k} were left", len(log)))
+                    break
+                pos = n
+            elif x < 0.85:
+                p = rng.choice([0, 0, 0, max(0, n - 1), rng.randrange(max(1, n))])
+                log.append(f"r.seek({p})")
+                toks.append(f"S{p}:0")
+                try:
+                    r.seek(p)
+                    obs.append(f"k{p}")
+                    if not (0 <= p < n):
+                        fails.append(("reading session: seek outside the points accepted", f"seek({p}) on {n} points", len(log)))
+                        break
+                    pos = p
+                except IndexError:
+                    obs.append("eEIndex")
+                    if 0 <= p < n:
+                        fails.append(("reading session: seek refused", f"seek({p}) on {n} points", len(log)))
+                        break
+            else:
+                m = rng.choice([0, 1, 2, -1, max(1, n // 2), n + 3])
+                log.append(f"r.read_points({m})")
+                toks.append(f"R{m}")
+                if not take(r.read_points(m), expect(m), f"read_points({m})"):
+                    break
+    return {"ops": log, "failures": fails, "cmd": f"crun {n} " + " ".join(toks) if toks else None, "obs": obs, "n": n}
+
+
+def near_rescale_cases(ctx):
+    """round 6: LasData whose header scaling was edited after the records were made, by EVERY order of magnitude (sessions.SCALING_DIFFS:
+    one ulp .. relative 1e-9 / 1e-7 / 5e-6 .. metres at UTM magnitudes .. doubled), half of the headers UTM-like. LasData.write re-expresses
+    the records in the header's scaling exactly when it differs: what is read back presents every coordinate to within half a step of the
+    file's scaling, the file says the header's scaling bit for bit, and the caller's object is left alone"""
+    import laspy
+    out = []
+    rng = ctx.rng
+    for _ in range(ctx.n(120, 1500)):
+        h = lasio.rand_header(rng, nvlrs=rng.choice([0, 1]))
+        if rng.random() < 0.6:
+            sc = rng.choice([0.001, 0.01])
+            h.scales = np.array([sc, sc, sc])
+            h.offsets = np.array([rng.choice([500000.0, 431000.0, 699999.5]), rng.choice([4000000.0, 5412345.0, 9300000.25]), rng.choice([0.0, 100.0, 1500.5])])
+        n = rng.choice([1, 2, 7, 30])
+        pts = lasio.rand_points(rng, h, n, pattern="small")
+        for k in "XYZ":
+            pts.array[k] = np.array([rng.randrange(-100000, 100000) for _ in range(n)], dtype=np.int32)
+        las = laspy.LasData(header=h, points=pts)
+        how = rng.choice(sessions.SCALING_DIFFS)
+        s, o = sessions.differing_scaling(rng, las.header, how)
+        las.header.scales, las.header.offsets = s, o
+        if rng.random() < 0.3:
+            las = las[::2] if rng.random() < 0.5 else las[::-1]
+        d = {"version": str(h.version), "format": h.point_format.id, "points": len(las.points), "record_scales": [float(x) for x in las.points.scales], "record_offsets": [float(x) for x in las.points.offsets],
+             "header_scaling_edited_to": {"how": how, "scales": [float(x) for x in s], "offsets": [float(x) for x in o]},
+             "reproduce": "las = LasData(header, points); las.header.scales, las.header.offsets = <edited>; las.write(BytesIO()); laspy.read(...)"}
+        probs = []
+        before = [np.array(las.points[k]) for k in "xyz"]
+        snap = _snap(las)
+        b = io.BytesIO()
+        try:
+            las.write(b)
+        except OverflowError:
+            if _snap(las) != snap:
+                probs.append(("a refused write modified the caller's object", "OverflowError, and the snapshot differs"))
+            out.append((d, probs))
+            continue
+        except Exception as ex:
+            out.append((d, [("write failed: " + type(ex).__name__, f"{type(ex).__name__}: {ex}")]))
+            continue
+        if _snap(las) != snap:
+            probs.append(("write modified the caller's object", "snapshot (contents and identity) differs after LasData.write of an object whose header scaling was edited"))
+        try:
+            back = laspy_read(b.getvalue())
+        except Exception as ex:
+            out.append((d, probs + [("written file cannot be read", f"{type(ex).__name__}: {ex}")]))
+            continue
+        if [lasio.f64bits(x) for x in back.header.scales] != [lasio.f64bits(x) for x in s] or [lasio.f64bits(x) for x in back.header.offsets] != [lasio.f64bits(x) for x in o]:
+            probs.append(("scales/offsets differ after round trip", f"read back {list(back.header.scales)} {list(back.header.offsets)}"))
+        if len(back.points) != len(las.points):
+            probs.append(("point count differs after round trip", f"{len(back.points)} read, {len(las.points)} written"))
+        else:
+            for i, k in enumerate("xyz"):
+                got = np.asarray(back.points.array[k.upper()], dtype=np.float64) * float(back.header.scales[i]) + float(back.header.offsets[i])
+                err = np.abs(got - before[i])
+                tol = 0.5 * float(back.header.scales[i]) * (1 + 1e-9) + 2e-15 * max(1.0, float(np.abs(before[i]).max()), abs(float(back.header.offsets[i])))
+                if len(err) and float(err.max()) > tol:
+                    probs.append(("rescaled write moved coordinates", f"{k}: presented {before[i][:3].tolist()} before the write, read back {got[:3].tolist()}: error {float(err.max())!r} > half a step "
+                                                                      f"{0.5 * float(back.header.scales[i])!r} (header scaling edited: {how})"))
+                    break
+        b2 = io.BytesIO()
+        try:
+            back.write(b2)
+            if b2.getvalue() != b.getvalue():
+                probs.append(("write after read is not idempotent", "the re-expressed file is rewritten differently"))
+        except Exception as ex:
+            probs.append(("write after read is not idempotent", f"rewrite raised {type(ex).__name__}: {ex}"))
         out.append((d, probs))
     return out
